@@ -23,7 +23,7 @@ use poulpy_core::{
     GLWETensorKeyCompressedEncryptSk, GLWETensorKeyEncryptSk,
     layouts::{
         Base2K, Degree, Dnum, Dsize, GGLWE, GGLWECompressed, GGLWECompressedSeed, GGLWECompressedToRef, GGLWEDecompress, GGLWELayout,
-        GGLWEToGGSWKey, GGLWEToGGSWKeyCompressed, GGLWEToRef, GGSW, GGSWCompressed, GGSWCompressedSeed,
+        GGLWEToGGSWKey, GGLWEToGGSWKeyCompressed, GGLWEToGGSWKeyDecompress, GGLWEToRef, GGSW, GGSWCompressed, GGSWCompressedSeed,
         GGSWDecompress, GGSWLayout, GLWE, GLWEAutomorphismKey, GLWEAutomorphismKeyCompressed, GLWEAutomorphismKeyDecompress,
         GLWECompressed, GLWECompressedSeed, GLWEDecompress, GLWELayout, GLWEPlaintext, GLWESecret, GLWESecretPreparedFactory,
         GLWESwitchingKey, GLWESwitchingKeyCompressed, GLWESwitchingKeyDecompress, GLWETensorKey, GLWETensorKeyCompressed,
@@ -297,9 +297,7 @@ macro_rules! cmp_backend {
                                 scratch.borrow(),
                             );
                             let mut d = GGLWEToGGSWKey::alloc_from_infos(&gglwe_layout);
-                            for i in 0..rank {
-                                module.decompress_gglwe(d.at_mut(i), c.at(i)); // GGLWEToGGSWKeyDecompress has no impl for Module<B>
-                            }
+                            module.decompress_gglwe_to_ggsw_key(&mut d, &c);
                             let mut s = GGLWEToGGSWKey::alloc_from_infos(&gglwe_layout);
                             <Module<BE> as GGLWEToGGSWKeyEncryptSk<BE>>::gglwe_to_ggsw_key_encrypt_sk(
                                 &module,
@@ -314,9 +312,7 @@ macro_rules! cmp_backend {
                             let mut c2 = GGLWEToGGSWKeyCompressed::alloc_from_infos(&gglwe_layout);
                             c2.read_from(&mut &bytes[..]).unwrap();
                             let mut d2 = GGLWEToGGSWKey::alloc_from_infos(&gglwe_layout);
-                            for i in 0..rank {
-                                module.decompress_gglwe(d2.at_mut(i), c2.at(i));
-                            }
+                            module.decompress_gglwe_to_ggsw_key(&mut d2, &c2);
                             let ok = ser(&c2) == bytes && ser(&d2) == ser(&d);
                             for i in 0..rank {
                                 subs.push((own_gglwe(&d.at(i).to_ref()), own_gglwe(&s.at(i).to_ref()), c.at(i).seed().clone(), ok));
